@@ -12,8 +12,8 @@ HP_VALUES = {
     'inv_update_steps': [1, 1, 2, 3, 4, 5],
     'damping': [0.01, 0.1, 1.0, 0.003, 0.03],
     'factor_decay': [0.95, 0.5, 1.0, 0.8, 0.3],
-    'kl_clip': [1e30, 1e-3, 1e-2, 1e-6],
-    'lr': [0.1, 1.0, 0.01],
+    'kl_clip': [1e30, 1e-3, 1e-2, 1e-6, None],
+    'lr': [0.1, 1.0, 0.01, 0.0],
 }
 SCHED_FACTORS = {
     'factor_update_steps': [1, 2, 1.5, 1],
@@ -34,7 +34,7 @@ def _case(draw, max_ops):
         if draw(st.integers(0, 7)) == 0:
             # a callable reading live state that the loop changes between iterations (the optimizer-lr idiom)
             hp[k] = {'live': draw(st.lists(st.sampled_from(HP_VALUES[k]), min_size=2, max_size=4))}
-    consts = [k for k, v in hp.items() if not isinstance(v, dict)]
+    consts = [k for k, v in hp.items() if not isinstance(v, dict) and v is not None]     # a disabled (None) clip cannot be scheduled
     sched_keys = draw(st.lists(st.sampled_from(consts), unique=True, max_size=3)) if consts and draw(st.booleans()) else []
     scheduler = {k: {'table': draw(st.lists(st.sampled_from(SCHED_FACTORS[k]), min_size=1, max_size=4))} for k in sched_keys}
     accum = draw(st.sampled_from([1, 1, 2, 3]))
@@ -60,7 +60,7 @@ def _case(draw, max_ops):
         elif k == 'eval':
             ops.append({'op': 'eval', 'seed': draw(st.integers(0, 9999))})
         elif k == 'ckpt':
-            ops.append({'op': 'ckpt', 'compute_inverses': draw(st.booleans())})
+            ops.append({'op': 'ckpt', 'compute_inverses': draw(st.booleans()), 'perturb': draw(st.booleans())})
         else:
             ops.append({'op': k})
     return {'spec': draw(gens.model_spec(max_layers=3, max_dim=5, max_out=4)), 'method': method, 'prediv': prediv,
@@ -135,7 +135,7 @@ class C05(Prop):
                     rolled_back = True
                 bad = ls.rollback()
             else:
-                bad = ls.checkpoint_roundtrip(op['compute_inverses'])
+                bad = ls.checkpoint_roundtrip(op['compute_inverses'], perturb=op.get('perturb', False))
             if bad:
                 return violation(f'op {i} {op}: {bad[1]} :: method={case["method"]} prediv={case["prediv"]} in_hook={case["in_hook"]} '
                                  f'accum={case["accum"]} hp={case["hp"]} scheduler={case["scheduler"]}', bad[0], labels=labels)
